@@ -42,6 +42,39 @@ def _err(e):
     return '!Other:' + type(e).__name__
 
 
+_SYN_CACHE = {}
+
+
+def resolve_enum(q):
+    """A package class by qualified name, or a synthetic IntEnum `synthetic:Name|A=3,B=1` (declaration order kept)."""
+    if not q.startswith('synthetic:'):
+        return c17_extract.resolve(q)
+    if q not in _SYN_CACHE:
+        name, body = q[len('synthetic:'):].split('|')
+        src = 'from fusion_engine_client.utils.enum_utils import IntEnum\nclass %s(IntEnum):\n' % name
+        for item in body.split(','):
+            n, v = item.split('=')
+            src += '    %s = %d\n' % (n, int(v))
+        ns = {}
+        exec(src, ns)
+        _SYN_CACHE[q] = ns[name]
+    return _SYN_CACHE[q]
+
+
+SYNTHETIC = ['synthetic:SentinelFirst|INVALID=15,A=0,B=3,C=1',
+             'synthetic:Descending|Z=9,Y=5,X=2',
+             'synthetic:Gappy|LOW=1,HIGH=40,MID=7,ZERO=0',
+             'synthetic:NegFirst|LAST=6,NEG=-2,FIRST=-5,ONE=1']
+
+
+def synthetic_infos():
+    out = []
+    for q in SYNTHETIC:
+        body = q.split('|')[1]
+        out.append(Info({'qualname': q, 'defn': [(x.split('=')[0], int(x.split('=')[1])) for x in body.split(',')], 'bits': 8}))
+    return out
+
+
 class _Exec:
     """Executes primitive operations on one real enum class and renders what it saw."""
 
@@ -91,6 +124,19 @@ class _Exec:
                 return self.tok(E[arg])
             if k == 'G':                                   # E[<int>] is E(<int>): strict
                 return self.tok(E[int(arg)])
+            if k in 'MDIL':                                # the MEMBER OBJECT of an earlier lenient conversion is converted
+                m = E(int(arg), raise_on_unrecognized=False)       # (already seen: no state change)
+                if k == 'M':
+                    return self.tok(E(m, raise_on_unrecognized=True))
+                if k == 'D':
+                    return self.tok(E(m))
+                if k == 'I':
+                    return self.tok(E[m])
+                return self.tok(E(m, raise_on_unrecognized=False))
+            if k == 'x':                                   # a lenient conversion on ANOTHER enumeration; then len(E)
+                q, v = arg.rsplit(':', 1)
+                resolve_enum(q)(int(v), raise_on_unrecognized=False)
+                return str(len(E))
             if k == 'i':
                 return ','.join(self.tok(m) for m in list(E)) or '-'
             if k == 'l':
@@ -109,7 +155,7 @@ class _Exec:
 
 
 def _child_enum(script):
-    E = c17_extract.resolve(script['enum'])
+    E = resolve_enum(script['enum'])
     ex = _Exec(E)
     return [ex.op(o) for o in script['ops']]
 
@@ -121,7 +167,7 @@ def _child_mask(script):
         M = c17_extract.resolve(script['package_mask'])
         E = type(M._enum_values[0])
     else:
-        E = c17_extract.resolve(script['enum'])
+        E = resolve_enum(script['enum'])
     ex = _Exec(E)
     pre = script.get('pre', [])
     done = []
@@ -299,6 +345,29 @@ def enum_script(info, vals, rng, label, every, adapter_bits=0, per_value_strict=
     return {'kind': 'enum', 'enum': info.q, 'ops': ops, 'label': label, 'oracle': True}
 
 
+def member_and_foreign_script(info, others, rng):
+    """Conversions of member OBJECTS (a hidden member handed back to a strict conversion must still be refused) and
+    histories on OTHER enumerations (unknown values seen by another class must not change this one)."""
+    ops = checkpoint(info, [], rng, False)
+    vs = sorted(info.values)
+    unknown = [v for v in (vs[-1] + 1, vs[-1] + 7, vs[0] - 1, 77, 200) if v not in info.values][:4]
+    seen = []
+    for v in unknown:
+        ops += ['c%d' % v, 'M%d' % v, 'D%d' % v, 'I%d' % v, 'L%d' % v, 's%d' % v]
+        seen.append(v)
+    for v in vs[:6]:
+        ops += ['c%d' % v, 'M%d' % v, 'D%d' % v, 'I%d' % v]
+    for o in others:
+        # values defined HERE but unknown THERE are converted leniently there; here they must stay defined and strict-acceptable
+        for v in [x for x in vs if x not in o.values][:5]:
+            ops += ['x%s:%d' % (o.q, v), 's%d' % v, 'd%d' % v, 'c%d' % v]
+        # and values unknown here that the other class saw must still be refused here
+        for v in unknown[:2]:
+            ops += ['x%s:%d' % (o.q, v), 's%d' % v]
+    ops += checkpoint(info, seen, rng, True)
+    return {'kind': 'enum', 'enum': info.q, 'ops': ops, 'label': 'member-objects+foreign-enums', 'oracle': True}
+
+
 def string_path_script(info, rng):
     """The lenient *string* conversion adds a visible member by design; compared with the model only."""
     vs = sorted(info.values)
@@ -334,6 +403,8 @@ def enum_scripts(ctx, infos):
             out.append(enum_script(info, pool[::-1], rng, '16bit-sample-descending', 400, 0))
             out.append(enum_script(info, psh, rng, '16bit-sample-shuffled', 400, ab if ab >= 16 else 0))
         out.append(string_path_script(info, rng))
+        others = [o for o in infos if o.q != info.q and len(o.values - info.values) + len(info.values - o.values) > 0]
+        out.append(member_and_foreign_script(info, rng.sample(others, min(3, len(others))), rng))
     if ctx.thorough:
         # every value of the 16-bit wire range, one order per enum (a lenient conversion costs O(members) in aenum)
         k = 0
@@ -393,6 +464,12 @@ def mask_scripts(ctx, infos, masks):
 # ---- model requests --------------------------------------------------------------------------------------------------
 
 def model_op(op):
+    if op[0] in 'MDI':
+        return 's' + op[1:]          # a member is an int: strict conversion of its value
+    if op[0] == 'L':
+        return 'c' + op[1:]
+    if op[0] == 'x':
+        return 'l'                   # another enumeration's history does not touch this one
     if op[0] in 'aq':
         return 'c' + op.split(':')[1]
     if op[0] == 'A':
@@ -436,10 +513,10 @@ def judge_enum(ctx, info, script, toks):
         if '?' in t:
             add('result-not-a-member', 'result is not a member of the class', i)
             continue
-        if k in 'caq':
+        if k in 'caqL':
             v = int(op.split(':')[1]) if k in 'aq' else int(op[1:])
             conversions += 1
-            site = {'c': 'call-lenient', 'a': 'adapter-lenient', 'q': 'call-lenient-numpy'}[k]
+            site = {'c': 'call-lenient', 'a': 'adapter-lenient', 'q': 'call-lenient-numpy', 'L': 'call-lenient-on-member-object'}[k]
             m = MEMBER.match(t)
             if not m:
                 add(site + '/raises', 'lenient conversion of %d raised' % v, i)
@@ -450,15 +527,22 @@ def judge_enum(ctx, info, script, toks):
             elif v not in info.values and m.group(3) != 'U':
                 add(site + '/unknown-not-flagged', 'lenient conversion of the undefined value %d is not flagged unrecognized' % v, i)
             lenient_seen.add(v)
-        elif k in 'sAdG':
+        elif k in 'sAdGMDI':
             v = int(op.split(':')[1]) if k == 'A' else int(op[1:])
-            site = {'s': 'call-strict', 'A': 'adapter-strict', 'd': 'call-default', 'G': 'getitem-int'}[k]
+            site = {'s': 'call-strict', 'A': 'adapter-strict', 'd': 'call-default', 'G': 'getitem-int',
+                    'M': 'call-strict-on-member-object', 'D': 'call-default-on-member-object', 'I': 'getitem-member-object'}[k]
+            if k in 'MDI':
+                lenient_seen.add(v)
             if v in info.values:
                 if t != info.member(v):
                     add(site + '/defined-value-not-its-member', 'strict conversion of the defined value %d is not %s' % (v, info.member(v)), i)
             elif not t.startswith('!'):
                 add(site + ('/accepts-unknown-seen-before' if v in lenient_seen else '/accepts-unknown'),
                     'strict conversion of the undefined value %d is not refused' % v, i)
+        elif k == 'x':
+            conversions += 1         # another enumeration saw an unknown value; len(E) is reported
+            if 'l' in baseline and t != baseline['l']:
+                add('len/changed-after-foreign-conversions', 'len(E) was %s on the fresh class and is %s' % (baseline['l'], t), i)
         elif k in 'il' or (k in 'gn' and not hidden(op[1:])):
             # history independence: the answer must be the one the fresh class gave to the same question in this script
             # (before any conversion).  Whether the fresh answers follow the definition is the model's business.
@@ -658,7 +742,14 @@ def shrink_enum(ctx, info, sc, i, sig=None):
 
 def run(ctx, data):
     infos = [Info(e) for e in data['enums']]
-    scripts = enum_scripts(ctx, infos) + mask_scripts(ctx, infos, data['masks'])
+    # synthetic enumerations (declared in non-ascending order, with gaps, negative values): the helpers and the
+    # metaclass are generic, the property is not only about the classes the package happens to define
+    syn = synthetic_infos()
+    scripts = enum_scripts(ctx, infos) + mask_scripts(ctx, infos + syn, data['masks'])
+    for si in syn:
+        scripts.append(member_and_foreign_script(si, ctx.rng.sample(infos, 2), ctx.rng))
+        scripts.append(enum_script(si, list(range(-8, 48)), ctx.rng, 'synthetic', 16, 0))
+    infos = infos + syn
     ctx.count('enum_classes', len(infos))
     run_scripts(ctx, infos, scripts)
 
